@@ -289,6 +289,39 @@ def run(chk):
         rcases.append('r%d coll2 %s %s %d %d %d %d %d %d %d %d %d %d %d %d %d %s %d %d' % (k, font, ''.join('%08x' % c for c in txt), a, b, rng.choice((1, 1, 3, 0, 2)),      # right to left; left to right (the limits here are x-symmetric)
                       lbx, lby, ltx, lty, ox, oy, sx, sy, rng.randrange(-900, 901), rng.randrange(-900, 901), rng.choice(('0', '10', '50')), rng.randrange(2), rng.randrange(2)))
     _, rl, _ = vlib.run_pair(None, w, rcases, timeout=2400)
+    # grazing arrangements, built from the boxes the first round printed: the neighbour is put where one of its (sub-)boxes overlaps the
+    # target by 1..5 units across one axis and widely along it -- the smallest overlaps that still count, at the edge of every test that
+    # decides whether a box takes part in an axis
+    gz = []
+    for c, l in zip(rcases, rl):
+        if len(gz) >= (3000 if chk.tier == 'thorough' else 500) or l is None or ' T ' not in l or ' N ' not in l:
+            continue
+        t, f = l.split(), c.split()
+        try:
+            ti, ni = t.index('T'), t.index('N')
+            txi, tyi, txa, tya = (float(v) for v in t[ti + 1].split(',')[:4])
+            zt = [x for x in t[ni + 1:] if x.startswith('Z')]
+            k2 = ni + len(zt)
+            nsub = int(t[k2 + 1].split('=')[1])
+            boxes = [tuple(float(v) for v in b.split(',')) for b in t[k2 + 2:]]
+        except (ValueError, IndexError):
+            continue
+        if not boxes:
+            continue
+        bx = rng.choice(boxes[1:] if nsub > 0 and len(boxes) > 1 else boxes[:1])
+        ox, oy, sx0, sy0 = (float(v) for v in f[11:15])
+        px, py = ox + sx0, oy + sy0
+        d = rng.choice((1, 1, 2, 3, 5))
+        if rng.random() < 0.5:       # graze across y (from below or above), overlap widely in x
+            ny = py + tyi - bx[3] + d if rng.random() < 0.5 else py + tya - bx[1] - d
+            nx = px + (txi + txa) / 2 - (bx[0] + bx[2]) / 2 + rng.randrange(-20, 21)
+        else:                        # graze across x
+            nx = px + txi - bx[2] + d if rng.random() < 0.5 else px + txa - bx[0] - d
+            ny = py + (tyi + tya) / 2 - (bx[1] + bx[3]) / 2 + rng.randrange(-20, 21)
+        g = list(f); g[0] = 'z%d' % len(gz); g[15] = '%d' % round(nx); g[16] = '%d' % round(ny); g[17] = '0'
+        gz.append(' '.join(g))
+    _, gl, _ = vlib.run_pair(None, w, gz, timeout=2400)
+    rcases, rl = rcases + gz, list(rl) + list(gl)
     nres = 0
     for c, l in zip(rcases, rl):
         if l is None:
